@@ -26,7 +26,7 @@ LEVEL_TEXT = ("Theorems in Coq (Properties/C14.v). In every state reachable from
               "were and arms every session it finds with a full timeout (c14_leader_change_keeps_db); KeyToId inverts SessionKey on every "
               "offset-valued id and, PARTIAL, Initialize finds every session whose key holds decodable metadata "
               "(c14_key_to_id_session_key, c14_leader_init_finds_session_partial); the sessions a new leader holds are read from the DB reached by its WHOLE log, whatever prefix it had applied as a "
-              "follower (c14_sessions_after_leader_change); the end of a session is a single request "
+              "follower (c14_sessions_after_leader_change), each with the metadata decoded from its own key (c14_leader_init_own_metadata); the end of a session is a single request "
               "(c14_cleanup_write_is_one_request), which the sessions leg checks on the real leader's log.")
 LEVEL_NOTE = ("Trusted: Coq kernel, extraction (ExtrOcamlBasic), the Go harnesses (gating kv.Factory wrapper, canonicalisation). Partial where the "
               "property lives in the runtime: real timers and goroutine scheduling are not modelled (time.Timer never fires early is assumed); the "
@@ -50,7 +50,10 @@ RULE = ("db14: one case = a fresh real DB driven through 15-45 steps (session cr
         "kinds of interleaved traffic, sessions owning 0/1/999/1000/1001/1500 records ended by CloseSession and by expiry, and 12 leader changes per run "
         "on a node whose DB lags its log: a real follower controller fed a generated log of creations / ephemeral puts / takeovers / closes "
         "through Replicate with commit offsets -1..n-2, then NewTerm + BecomeLeader with rf 1 and rf 2 (acking in-process follower), checked "
-        "against the fold of the whole log: KeepAlive, expiry with records, no resurrection); every session "
+        "against the fold of the whole log: KeepAlive, expiry with records, no resurrection; 6 leader changes per run with four live sessions "
+        "of 200 ms / 600 ms / 3 s / 30 s and distinct identities created in varying order, on both leader-change paths: restored metadata per "
+        "session (hook VerifSessionInfo), each session expiring by its own timeout, upper bound skipped when a calibration timer shows the "
+        "machine late); every session "
         "end is monitored on the leader's WAL (one log entry deleting all owned records, the session key and the shadow range) and a real new "
         "leader is started from the log prefix ending at each entry of the cleanup (alive => all records, gone => none); distinct by scenario "
         "parameters")
